@@ -50,6 +50,12 @@ mod initiator;
 mod responder;
 pub(crate) mod spake2p;
 
+/// Verification hook: the SPAKE2+ primitive (prover / verifier steps, verifier data).
+#[cfg(rs_matter_verif)]
+pub mod verif_spake2p {
+    pub use super::spake2p::*;
+}
+
 /// Minimal commissioning window timeout in seconds, as per the Matter Core Spec
 pub const MIN_COMM_WINDOW_TIMEOUT_SECS: u16 = 3 * 60;
 /// Maximal commissioning window timeout in seconds, as per the Matter Core Spec
@@ -511,6 +517,72 @@ impl Pase {
 impl Default for Pase {
     fn default() -> Self {
         Self::new()
+    }
+}
+
+/// Verification hook: plain-data view of the commissioning window.
+#[cfg(rs_matter_verif)]
+#[derive(Debug, Clone, PartialEq, Eq)]
+pub struct VerifWindowView {
+    pub pake_failures: u8,
+    /// `Instant::now() > window_expiry`
+    pub expired: bool,
+    pub opener: Option<CommWindowOpener>,
+    pub basic: bool,
+    pub count: u32,
+    pub salt_len: usize,
+    pub discriminator: u16,
+}
+
+/// Verification hook: plain-data view of the PASE state.
+#[cfg(rs_matter_verif)]
+#[derive(Debug, Clone, PartialEq, Eq)]
+pub struct VerifPaseView {
+    pub window: Option<VerifWindowView>,
+    /// in-progress marker: (session id, exchange index, deadline passed)
+    pub marker: Option<(u32, usize, bool)>,
+}
+
+/// Verification hooks: observe the window / in-progress marker and let time pass for them.
+#[cfg(rs_matter_verif)]
+impl Pase {
+    pub fn verif_view(&self) -> VerifPaseView {
+        VerifPaseView {
+            window: self.comm_window.as_opt_ref().map(|w| VerifWindowView {
+                pake_failures: w.pake_failures,
+                expired: Instant::now() > w.window_expiry,
+                opener: w.opener,
+                basic: w.verifier.password.is_some(),
+                count: w.verifier.count,
+                salt_len: w.verifier.salt_bytes().len(),
+                discriminator: w.discriminator,
+            }),
+            marker: self.session_timeout.as_ref().map(|m| {
+                (
+                    m.exch_id.session_id(),
+                    m.exch_id.exchange_index(),
+                    m.is_sess_expired(),
+                )
+            }),
+        }
+    }
+
+    /// Move the window expiry and the in-progress deadline `d` into the past
+    /// (the same effect as `d` of wall-clock time passing for these two timers).
+    pub fn verif_age(&mut self, d: Duration) {
+        if let Some(w) = self.comm_window.as_opt_mut() {
+            w.window_expiry = w
+                .window_expiry
+                .checked_sub(d)
+                .unwrap_or(Instant::from_ticks(0));
+        }
+
+        if let Some(m) = self.session_timeout.as_mut() {
+            m.session_est_expiry = m
+                .session_est_expiry
+                .checked_sub(d)
+                .unwrap_or(Instant::from_ticks(0));
+        }
     }
 }
 
